@@ -444,7 +444,9 @@ def spec_new_from_iter_with_state(ctx, m, where, sums):
     it = f.get("__iter") if f else None
     okit = it is not None and _peekable(it) and it[2] == (("param", 1),)
     inp = f.get("input") if f else None
-    okin = inp is not None and inp[0] == "sym" and inp[1] == '""'
+    # `input` of an iterator-built lexer is read only by match_(), which is documented as
+    # unavailable for iterator input: any string constant is acceptable
+    okin = inp is not None and inp[0] == "sym" and (inp[2] or "").startswith("&") and "str" in inp[2]
     _spec_ctor(ctx, m, where, sums, inp if okin else ("bad",), it if okit else ("bad",), ("param", 2))
 
 
@@ -462,7 +464,9 @@ def spec_new_from_iter(ctx, m, where, sums):
     it = f.get("__iter") if f else None
     okit = it is not None and _peekable(it) and it[2] == (("param", 1),)
     inp = f.get("input") if f else None
-    okin = inp is not None and inp[0] == "sym" and inp[1] == '""'
+    # `input` of an iterator-built lexer is read only by match_(), which is documented as
+    # unavailable for iterator input: any string constant is acceptable
+    okin = inp is not None and inp[0] == "sym" and (inp[2] or "").startswith("&") and "str" in inp[2]
     _spec_ctor(ctx, m, where, sums, inp if okin else ("bad",), it if okit else ("bad",), DEFAULT)
 
 
